@@ -54,6 +54,13 @@ def run_core(ctx, props, quick_n=2400, thorough_n=40000, points=(100, 250)):
     else:
         timed_out = [] if len(timed_out) > max(2, (2 * len(lines)) // 1000) else timed_out
     soft, fails = C.split_numerical_ties(fails, inputs, rep["oracle_failures"])
+    if soft and ok:
+        # a numerical tie of the bound analysis changes numbers, never the shape of the output: a candidate whose variables, rows
+        # (names, relations) or verdict kind differ is a real mismatch
+        sd, e3 = C.eval_cases(ctx, "tieshape", IMPORTS, "lcase", [lines[i] for i in soft], fn="shape_differs", shard=60, timeout=45, single_timeout=15)
+        if sd and not e3:
+            fails = sorted(set(fails) | set(soft[j] for j in sd))
+            soft = [i for k, i in enumerate(soft) if k not in set(sd)]
     if fails:
         i = fails[0]
         mo = C.eval_term(ctx, IMPORTS, "lmodel_out %s" % lines[i])
